@@ -22,6 +22,7 @@ Act(e) ==
   CASE e.a = "gen"   -> Generate(e.t, e.path)
     [] e.a = "merge" -> MergeComposite(e.i, e.j, e.path)
     [] e.a = "loose" -> MergeLoose(e.i, e.n, e.path)
+    [] e.a = "both"  -> MergeBoth(e.i, e.j, e.n, e.path)
 
 Target(e) == IF e.a = "gen" THEN Len(objs') ELSE e.i
 Fails(e) ==
